@@ -123,7 +123,7 @@ pub fn observe(c: &Case) -> Vec<u8> {
                 _ => go!(threefish::Threefish1024, 16),
             }
         }
-        #[cfg(feature = "allfeat")]
+        #[cfg(feature = "fh")]
         Case::Hazmat { f, block, rk, be } => {
             macro_rules! go {
                 ($m:ident) => {{
@@ -147,7 +147,7 @@ pub fn observe(c: &Case) -> Vec<u8> {
                 _ => go!(aes_fs32),
             }
         }
-        #[cfg(feature = "allfeat")]
+        #[cfg(feature = "fh")]
         Case::HazmatPar { f, blocks, rks, be, off } => {
             macro_rules! go {
                 ($m:ident) => {{
@@ -181,7 +181,7 @@ pub fn observe(c: &Case) -> Vec<u8> {
                 _ => go!(aes_fs32),
             }
         }
-        #[cfg(not(feature = "allfeat"))]
+        #[cfg(not(feature = "fh"))]
         Case::Hazmat { .. } | Case::HazmatPar { .. } => Vec::new(),
     }
 }
